@@ -337,9 +337,15 @@ impl<Sink: TokenSink> Tokenizer<Sink> {
     // NB: this doesn't set the current input character.
     fn eat(&self, input: &BufferQueue, pat: &str, eq: fn(&u8, &u8) -> bool) -> Option<bool> {
         if self.ignore_lf.get() {
-            self.ignore_lf.set(false);
-            if self.peek(input) == Some('\n') {
-                self.discard_char(input);
+            // Only forget the pending CR once we know what follows it; if the
+            // input has run out, the LF may still arrive with the next chunk.
+            match self.peek(input) {
+                Some('\n') => {
+                    self.ignore_lf.set(false);
+                    self.discard_char(input);
+                },
+                Some(_) => self.ignore_lf.set(false),
+                None => (),
             }
         }
 
